@@ -14,7 +14,7 @@
 int64_t nv_gk;
 struct nv_hashes { int64_t n; };                       /* hashes_t: the sorted hashes of the distinct labelings; only the count matters here */
 struct nv_labels { int64_t rows; };                    /* sclass_cmap_t / mclass_cmap_t: one labeling per sample; contents arbitrary */
-struct nv_label { int64_t dummy; };                    /* one labeling: values(sample) resp. values.array(sample) */
+struct nv_label { int64_t row; };                      /* one labeling: values(sample) resp. values.array(sample): of which sample */
 struct nv_iview { int64_t* g; int64_t n, k; };         /* integer 1-D Eigen view (indices_t::array()) */
 struct nv_xstats { struct nv_hashes m_class_hashes; struct nv_gvi m_class_samples, m_sample_classes; struct nv_gvd m_sample_weights; };
 #define NV_XS_OK(s) (0 <= (s)->m_class_hashes.n && (s)->m_class_hashes.n <= NV_MAXN && (s)->m_class_samples.n == (s)->m_class_hashes.n && (s)->m_class_samples.k == nv_gk \
@@ -34,7 +34,7 @@ static int64_t nv_hash_find(const struct nv_hashes* h)
 { int64_t r = nv_nondet_int64_t(); __CPROVER_assume(-1 <= r && r < h->n); nv_w_find = r; return r; }
 static int64_t nv_labels_rows(const struct nv_labels* v) { return v->rows; }
 static struct nv_label nv_labels_at(const struct nv_labels* v, int64_t i)
-{ struct nv_label l; __CPROVER_assert(0 <= i && i < v->rows, "values(sample): sample in range"); l.dummy = 0; return l; }
+{ struct nv_label l; __CPROVER_assert(0 <= i && i < v->rows, "values(sample): sample in range"); l.row = i; return l; }
 /* tensor.resize(n) (vector storage): n coefficients, contents indeterminate */
 static void nv_gvi_resize(struct nv_gvi* t, int64_t n, int64_t k) { t->n = n; t->k = k; t->g = nv_nondet_int64_t(); }
 static void nv_gvd_resize(struct nv_gvd* t, int64_t n, int64_t k) { t->n = n; t->k = k; t->g = nv_nondet_double(); }
@@ -117,6 +117,7 @@ static struct nv_xstats nv_x_alloc(const struct nv_labels* values) { nv_x_alloc_
 static void nv_x_update(struct nv_xstats* stats, int64_t sample, struct nv_label lab)
 {
   __CPROVER_assert(nv_x_done_calls == 0, "::update: never after ::done");
+  __CPROVER_assert(lab.row == sample, "::update(stats, sample, values): the labeling of this very sample");
   if (sample == nv_gs) nv_x_upd_gs = nv_x_upd_gs + 1;
   nv_x_K = NV_K(stats);
   xstats_update_c(stats, sample);
